@@ -7,6 +7,12 @@
 // ops:
 //
 //	new fw|app            start the real reader goroutine on a fresh scripted connection
+//	new tcp|unix <mtu>    the REAL UnicastTCPTransport / UnixStreamTransport receive loop (runReceive) on
+//	                      a loopback connection, SetMTU(<mtu>) applied; the frames are what reaches the
+//	                      transport's link service; rd writes to the peer end (=> k=<n> w), the frames
+//	                      are reported at eof (=> nil f=<all frames>)
+//	rde <n>               like rd, but the bytes are returned TOGETHER with an error that the
+//	                      ignoreError callback swallows (n = 0: the error alone); fw kind only
 //	blk <typ> <len> <seed> append one well-formed TLV block (type, value length, fill seed) to the
 //	                      byte stream the peer "sent"                               => ok
 //	rd <n>                the next Read returns min(n, bytes pending, len(p)) bytes  (app: repeated
@@ -24,8 +30,10 @@ import (
 	"fmt"
 	"io"
 	"net"
+	"os"
 	"strconv"
 	"strings"
+	"sync"
 	"testing"
 	"time"
 
@@ -78,9 +86,19 @@ func fnv64(b []byte) uint64 {
 // ---------------------------------------------------------------- scripted connection
 
 type readReq struct{ n int } // a Read was called with len(p) = n
+// one Read result prescribed by the history: the bytes and the error returned TOGETHER with them
+type readRes struct {
+	b   []byte
+	err error
+}
+
+// errIgnorable is the error the ignoreError callback of the fw kind swallows (what the UDP
+// transports do with transient socket errors).
+var errIgnorable = errors.New("verif: transient read error")
+
 type conn struct {
 	idle chan readReq // reader goroutine -> harness: "I am in Read"
-	data chan []byte  // harness -> reader: bytes to return (nil = EOF)
+	data chan readRes // harness -> reader: the result of this Read (err io.EOF = end of stream)
 	eof  bool
 }
 
@@ -90,14 +108,13 @@ func (c *conn) Read(p []byte) (int, error) {
 	}
 	c.idle <- readReq{len(p)}
 	d := <-c.data
-	if d == nil {
+	if d.err == io.EOF {
 		c.eof = true
-		return 0, io.EOF
 	}
-	if len(d) > len(p) {
+	if len(d.b) > len(p) {
 		panic("harness: chunk larger than the buffer offered")
 	}
-	return copy(p, d), nil
+	return copy(p, d.b), d.err
 }
 func (c *conn) Write(p []byte) (int, error)        { return len(p), nil }
 func (c *conn) Close() error                       { return nil }
@@ -118,9 +135,94 @@ type run struct {
 	offered int         // len(p) of the Read the goroutine currently sits in; -1 = finished
 	result  string
 	hung    bool
+	sock    net.Conn // socket kinds (tcp, unix): the peer's end of the real connection
+	closed  bool
 }
 
 var cur *run
+var sockSeq int
+
+// startSock runs the REAL stream transport (UnicastTCPTransport / UnixStreamTransport runReceive) on
+// a loopback connection, with SetMTU(mtu) applied as management would; frames are what reaches the
+// transport's link service.  The kernel decides the chunking, so frames are reported at eof.
+func startSock(kind string, mtu int) *run {
+	r := &run{kind: kind, done: make(chan string, 1), offered: -1}
+	var ln net.Listener
+	var err error
+	if kind == "tcp" {
+		ln, err = net.Listen("tcp4", "127.0.0.1:0")
+	} else {
+		sockSeq++
+		ln, err = net.Listen("unix", fmt.Sprintf("@verif-c11-%d-%d", os.Getpid(), sockSeq))
+	}
+	if err != nil {
+		return nil
+	}
+	defer ln.Close()
+	cl, err := net.Dial(ln.Addr().Network(), ln.Addr().String())
+	if err != nil {
+		return nil
+	}
+	srv, err := ln.Accept()
+	if err != nil {
+		cl.Close()
+		return nil
+	}
+	var mu sync.Mutex
+	recv, err := fwface.VerifStreamReceiver(kind, srv, mtu, func(b []byte) {
+		mu.Lock()
+		r.frames = append(r.frames, strconv.Itoa(len(b))+":"+strconv.FormatUint(fnv64(b), 16))
+		mu.Unlock()
+	})
+	if err != nil {
+		cl.Close()
+		srv.Close()
+		return nil
+	}
+	r.sock = cl
+	go func() {
+		r.done <- common.Guard(func() string { recv(); return "nil" })
+	}()
+	return r
+}
+
+func (r *run) sockWrite(op string, n int) string {
+	if r.closed {
+		return "dead " + r.result
+	}
+	if op != "rd" {
+		return "skip"
+	}
+	if n > len(r.pending) {
+		n = len(r.pending)
+	}
+	if n == 0 {
+		return "skip"
+	}
+	r.sock.SetWriteDeadline(time.Now().Add(watchdog))
+	if _, err := r.sock.Write(r.pending[:n]); err != nil {
+		r.closed = true
+		return "hang k=0 f=- write: " + err.Error()
+	}
+	r.pending = r.pending[n:]
+	return fmt.Sprintf("k=%d w", n)
+}
+
+// sockFinish closes the peer's end and waits for the transport's receive loop to end.
+func (r *run) sockFinish() string {
+	if r.closed {
+		return "dead " + r.result
+	}
+	r.closed = true
+	r.sock.Close()
+	select {
+	case r.result = <-r.done:
+	case <-time.After(watchdog):
+		r.hung = true
+		return "hang k=0 f=" + r.take()
+	}
+	return r.result + " f=" + r.take()
+}
 
 // watchdog: how long the reader goroutine may stay away from Read() before it is declared spinning
 const watchdog = 20 * time.Second
@@ -150,19 +252,25 @@ func (r *run) take() string {
 }
 
 func (r *run) stop() {
+	if r.sock != nil {
+		if !r.closed {
+			r.sockFinish()
+		}
+		return
+	}
 	if r.offered >= 0 {
-		r.c.data <- nil
+		r.c.data <- readRes{nil, io.EOF}
 		for r.offered >= 0 {
 			r.waitIdle()
 			if r.offered >= 0 { // must not happen: Read after EOF
-				r.c.data <- nil
+				r.c.data <- readRes{nil, io.EOF}
 			}
 		}
 	}
 }
 
 func start(kind string) *run {
-	r := &run{kind: kind, c: &conn{idle: make(chan readReq), data: make(chan []byte)}, done: make(chan string, 1)}
+	r := &run{kind: kind, c: &conn{idle: make(chan readReq), data: make(chan readRes)}, done: make(chan string, 1)}
 	onFrame := func(b []byte) {
 		r.frames = append(r.frames, strconv.Itoa(len(b))+":"+strconv.FormatUint(fnv64(b), 16))
 	}
@@ -170,7 +278,8 @@ func start(kind string) *run {
 	case "fw":
 		go func() {
 			res := common.Guard(func() string {
-				if err := fwface.VerifReadTlvStream(r.c, onFrame, nil); err != nil {
+				ignore := func(err error) bool { return errors.Is(err, errIgnorable) }
+				if err := fwface.VerifReadTlvStream(r.c, onFrame, ignore); err != nil {
 					return "err"
 				}
 				return "nil"
@@ -211,7 +320,14 @@ func exec(op string) string {
 		if len(f) < 2 {
 			return "bad-op"
 		}
-		cur = start(f[1])
+		if f[1] == "tcp" || f[1] == "unix" {
+			if len(f) != 3 {
+				return "bad-op"
+			}
+			cur = startSock(f[1], common.Atoi(f[2]))
+		} else {
+			cur = start(f[1])
+		}
 		if cur == nil {
 			return "bad-op"
 		}
@@ -222,17 +338,32 @@ func exec(op string) string {
 		}
 		cur.pending = append(cur.pending, Block(common.Atou(f[1]), common.Atoi(f[2]), common.Atoi(f[3]))...)
 		return "ok"
-	case "rd":
+	case "rd", "rde":
 		if cur == nil || len(f) != 2 {
 			return "skip"
 		}
 		r := cur
+		if r.sock != nil {
+			return r.sockWrite(f[0], common.Atoi(f[1]))
+		}
 		if r.offered < 0 {
 			return "dead " + r.result
 		}
 		n := common.Atoi(f[1])
 		if n > len(r.pending) {
 			n = len(r.pending)
+		}
+		var rerr error
+		if f[0] == "rde" { // the bytes come TOGETHER with an error the ignoreError callback swallows
+			if r.kind != "fw" {
+				return "skip"
+			}
+			rerr = errIgnorable
+			if n == 0 || r.offered == 0 {
+				r.c.data <- readRes{nil, rerr}
+				r.waitIdle()
+				return fmt.Sprintf("k=0 f=%s", r.take())
+			}
 		}
 		if n == 0 {
 			return "skip"
@@ -248,7 +379,7 @@ func exec(op string) string {
 			}
 			chunk := r.pending[:m]
 			r.pending = r.pending[m:]
-			r.c.data <- chunk
+			r.c.data <- readRes{chunk, rerr}
 			k += m
 			r.waitIdle()
 			if r.kind == "fw" {
@@ -268,6 +399,9 @@ func exec(op string) string {
 			return "skip"
 		}
 		r := cur
+		if r.sock != nil {
+			return r.sockFinish()
+		}
 		if r.offered < 0 {
 			return "dead " + r.result
 		}
@@ -338,7 +472,19 @@ func gen(g *common.Gen) {
 		if i%4 == 3 {
 			kind = "app"
 		}
-		g.Op("new %s", kind)
+		if i%8 == 6 { // the real stream transports' receive loops on a loopback connection
+			kind = "tcp"
+			if i%16 == 14 {
+				kind = "unix"
+			}
+			mtu := common.Pick(r, []int{maxPkt, 1500, 128, 1280, 4000})
+			if r.Chance(1, 2) {
+				mtu = r.Range(128, maxPkt)
+			}
+			g.Op("new %s %d", kind, mtu)
+		} else {
+			g.Op("new %s", kind)
+		}
 		g.Stat("hist-" + kind)
 		// style of the history
 		style := i % 8
@@ -449,7 +595,16 @@ func gen(g *common.Gen) {
 				if n > pend-pos {
 					n = pend - pos
 				}
-				g.Op("rd %d", n)
+				if kind == "fw" && r.Chance(1, 40) {
+					g.Op("rde 0") // an ignorable error alone
+					g.Stat("rde-0")
+				}
+				if kind == "fw" && r.Chance(1, 10) {
+					g.Op("rde %d", n) // the bytes together with an ignorable error
+					g.Stat("rde")
+				} else {
+					g.Op("rd %d", n)
+				}
 				g.Stat("rd")
 				if n == 1 {
 					g.Stat("rd-1byte")
